@@ -175,6 +175,21 @@ class PriorityPolicy(Policy):
         return 0
 
 
+class FairPolicy(Policy):
+    """Round robin: at every scheduling point the enabled thread that has waited longest since it was last chosen (all parties of the
+    system make progress side by side - in particular two table managers in one process really overlap)."""
+
+    def __init__(self):
+        self.last: Dict[str, int] = {}
+        self.n = 0
+
+    def choose(self, sched, enabled):
+        self.n += 1
+        best = min(range(len(enabled)), key=lambda i: (self.last.get(enabled[i].name, -1), enabled[i].id))
+        self.last[enabled[best].name] = self.n
+        return best
+
+
 class Cut(Exception):
     """Raised by an on_point callback to stop the execution here (state already seen)."""
 
